@@ -314,7 +314,16 @@ class ProcessPerformedClassification(Contract):
             else:
                 out.append(z3.And(VV(v.len()) == self.K, *[z3.Select(v.arr, k) == want[k] for k in range(self.K)]))
         flag = f["_performed_classification"]
-        return [Cl("estimator-table-is-a-list", True, prop=True),
+        # held-out testing data (if any) are classified right away with the new estimators: the recorded classes are those of this classification, one per sample
+        n_test = VV(rows(old["self"].fields["_testing_data"])[0].len())
+        newc = S.ex.ghost.get("new_classes")
+        cls = f["_calculated_classes_testset"]
+        if newc is None:
+            tested = n_test == 0
+        else:
+            tested = z3.And(VV(cls.len()) == n_test, cls.to_symbolic().arr == newc.arr) if isinstance(cls, Seq) else z3.BoolVal(False)
+        return [Cl("held-out-testing-data-are-classified-with-the-new-estimators", tested, prop=True),
+                Cl("estimator-table-is-a-list", True, prop=True),
                 Cl("one-estimator-per-class-of-this-learning-call-in-class-order", out[0], prop=True),
                 Cl("density-objects-likewise", out[1]),
                 Cl("marked-as-learned", flag if not isinstance(flag, bool) else z3.BoolVal(flag), prop=True)]
